@@ -18,7 +18,8 @@ EXPLANATION = (
     "map; (R3) the signs written through map.D equal the Dsigns literal; _fill_signs is (+ on x, - on z, Dsigns per "
     "map, placed by a running offset that advances by each map's own pdim); the Hs block is negated before it is written; the regulariser shifts with the sign; (R4) the "
     "regularisation shift and its restore are guarded by the same flag, the restore follows the refactorisation and "
-    "iterative refinement reads only the restored copy; (R5) one scaling state per factorisation: nothing between kktsystem.update and the last kktsystem.solve of an iteration writes a field that get_Hs / the sparse update / mul_Hs read; (R6) all four passes select sparse cones with the same test; (R8) get_Hs of every cone type fills its whole block; (R7) KKT mirror discipline: the value array and the LDL engine's permuted copy are written only through the paired helpers (re-run of C08.R5).")
+    "iterative refinement reads only the restored copy; (R5) one scaling state per factorisation: nothing between kktsystem.update and the last kktsystem.solve of an iteration writes a field that get_Hs / the sparse update / mul_Hs read; (R6) all four passes select sparse cones with the same test; (R8) get_Hs of every cone type fills its whole block; (R7) KKT mirror discipline: the value array and the LDL engine's permuted copy are written only through the paired helpers (re-run of C08.R5)."
+    " (R6) also: the second-order cone's layout predicates are its representation flag (sparse_data) or literally the allocation test of new; (R9) GenPowerCone::mul_Hs applies mu (D + p p' - q q' - r r') with whole-block inner products and get_Hs the diagonal mu d1, mu d2.")
 ASSUMPTIONS = ['rustc MIR construction and trait resolution are correct',
                'the block utilities (colcount_block/fill_block ...) are mutually consistent (C16 territory)']
 
@@ -461,6 +462,42 @@ def same_filter(rep, F, tag):
             r0 = canon(fs[0].sym_local(0))
             if K not in some:
                 R.check(r0 == 'false', 'not-expandable|%s%s' % (K, tag), '%s::is_sparse_expandable returns %s but to_sparse_expansion gives None (unwrap would panic)' % (K, r0), fs[0].loc())
+        # the second-order cone has two representations; which one a cone uses is recorded once, in sparse_data, and get_Hs /
+        # update_scaling / the sparse maps dispatch on that field.  The layout predicates must be that same fact, not a re-derived
+        # size test that can disagree with it (dense block allocated, sparse values written into it)
+        soc = F.one(name='is_sparse_expandable', adt='SecondOrderCone', trait='Cone')
+        r0 = canon(soc.sym_local(0))
+        # (a size test is accepted only if it is literally the allocation test of SecondOrderCone::new)
+        alloc = set()
+        nw = F.one(name='new', adt='SecondOrderCone')
+        for val, ret, ev, tr in Walker(nw, cut_loops=True).leaves():
+            sd = []
+            for b_ in tr:
+                for st_ in nw.blocks[b_]['s']:
+                    if 'rv' in st_ and not st_['p']['p'] and nw.local_name(st_['p']['l']) == 'sparse_data' and st_['rv']['k'] == 'agg' and 'variant' in st_['rv']['ak']:
+                        sd.append('Option::' + st_['rv']['ak']['variant'])
+            if ret[0] == 's' and sd:
+                ks = [k for k in val if k != 'le(2_usize, arg1)']
+                if len(ks) == 1 and (val[ks[0]] == 1) == sd[-1].startswith('Option::Some'):
+                    alloc.add(ks[0].replace('arg1', 'self.dim'))
+        R.check(r0 == 'is_some(self.sparse_data)' or (len(alloc) == 1 and r0 in alloc), 'soc-single-flag|is_sparse_expandable' + tag,
+                'SecondOrderCone::is_sparse_expandable returns %s: the KKT layout must follow the representation the cone actually holds (sparse_data.is_some()), '
+                'which is what get_Hs and update_scaling dispatch on' % r0, soc.loc())
+        hd = F.one(name='Hs_is_diagonal', adt='SecondOrderCone', trait='Cone')
+        r1 = canon(hd.sym_local(0))
+        R.check(r1 in ('is_sparse_expandable(self)', 'is_some(self.sparse_data)'), 'soc-single-flag|Hs_is_diagonal' + tag,
+                'SecondOrderCone::Hs_is_diagonal returns %s, expected the representation flag' % r1, hd.loc())
+        n_disp = 0
+        for nm in ('get_Hs', 'update_scaling', 'set_identity_scaling'):
+            g = F.one(name=nm, adt='SecondOrderCone', trait='Cone')
+            ks = set()
+            for val, ret, ev, tr in Walker(g, cut_loops=True).leaves():
+                ks |= {k for k in val if 'sparse_data' in k or 'is_sparse_expandable' in k or k.startswith(('lt(', 'le(')) and 'self.dim' in k}
+            n_disp += 1
+            R.check(ks <= {'discr(self.sparse_data)', 'is_some(self.sparse_data)'} and ks, 'soc-single-flag|%s%s' % (nm, tag),
+                    'SecondOrderCone::%s selects the representation with %s, expected the sparse_data field itself' % (nm, sorted(ks)), g.loc())
+        gp = F.one(name='is_sparse_expandable', adt='GenPowerCone', trait='Cone')
+        R.check(canon(gp.sym_local(0)) == 'true', 'genpow-expandable' + tag, 'GenPowerCone::is_sparse_expandable returns %s' % canon(gp.sym_local(0)), gp.loc())
 
     R.guard(body)
 
@@ -536,6 +573,85 @@ def one_scaling_state(rep, F, E, tag):
     R.guard(body)
 
 
+def _name_izip(v):
+    """replace every next(into_iter(IZIP))@Some.0.k in the canonical text v by <operand k of the izip>"""
+    from .c14 import _izip_operands
+    out = ''
+    i = 0
+    key = 'next(into_iter('
+    while True:
+        j = v.find(key, i)
+        if j < 0:
+            return out + v[i:]
+        out += v[i:j]
+        k = j + len(key)
+        d = 2
+        while k < len(v) and d:
+            d += v[k] == '('
+            d -= v[k] == ')'
+            k += 1
+        inner = v[j + len(key):k - 2]
+        m = re.match(r'@Some\.0\.(\d)', v[k:])
+        ops = _izip_operands(inner)
+        if m and int(m.group(1)) < len(ops):
+            out += '<%s>' % ops[int(m.group(1))]
+            i = k + m.end()
+        elif v[k:].startswith('@Some.0') and len(ops) == 1:
+            out += '<%s>' % ops[0]
+            i = k + len('@Some.0')
+        else:
+            out += v[j:k]
+            i = k
+
+
+def genpow_operator(rep, F, tag, rid):
+    """GenPowerCone: the KKT matrix carries Hs through the diagonal D and the three expansion columns p, q, r, i.e.
+    mu (D + p p' - q q' - r r').  mul_Hs - used to recover ds from the same system - must apply exactly that operator: each rank-one
+    term is (inner product of the vector with the whole x block) times the vector."""
+    R = rep.rule(rid, 'GenPowerCone::mul_Hs applies mu (D + p p\' - q q\' - r r\'), the operator encoded by get_Hs and the sparse expansion columns')
+
+    def body():
+        f = F.one(name='mul_Hs', adt='GenPowerCone', trait='Cone')
+        norm = lambda x: _name_izip(str(x)).replace('self.data.0.pointer.', '').replace('self.data.', '')
+        X1, X2 = 'index(arg3, RangeTo::RangeTo(dim1(self)))', 'index(arg3, RangeFrom::RangeFrom(dim1(self)))'
+        Y1, Y2 = 'into_iter(index_mut(arg2, RangeTo::RangeTo(dim1(self))))', 'into_iter(index_mut(arg2, RangeFrom::RangeFrom(dim1(self))))'
+
+        def forms(d, x, vec, xs):
+            a = ['mul(<%s>, <%s>)' % (d, x), 'mul(<%s>, <%s>)' % (x, d)] if d != 'd2' else ['mul(d2, <%s>)' % x, 'mul(<%s>, d2)' % x]
+            b = ['mul(dot(%s, %s), <%s>)' % (vec, xs, vec), 'mul(<%s>, dot(%s, %s))' % (vec, vec, xs)]
+            return {'sub(%s, %s)' % (p_, q_) for p_ in a for q_ in b}
+        want = {Y1: forms('d1', X1, 'q', X1), Y2: forms('d2', X2, 'r', X2)}
+        seen = set()
+        tail = None
+        for val, ret, ev, tr in Walker(f, cut_loops=True).leaves():
+            for e in ev:
+                if e[0] == 'store':
+                    t, v = norm(e[1]), norm(e[2])
+                    t = t.strip('<>')
+                    if t in want:
+                        seen.add(t)
+                        R.check(v in want[t], 'block|%s%s' % ('y1' if t == Y1 else 'y2', tag),
+                                'mul_Hs stores %s into %s: expected d.*x - <v, x_block> v with the inner product over the whole block (the expansion '
+                                'column encodes the rank-one term v v\', not diag(v^2))' % (v[:200], 'y1' if t == Y1 else 'y2'), f.loc())
+                    else:
+                        R.bad('store-target' + tag, 'mul_Hs stores into %s' % t[:100], f.loc())
+            if ret[0] == 's':
+                tail = [norm(e[2]) for e in ev if e[0] == 'call' and e[1] in ('axpby', 'scale', 'axpy', 'negate')]
+        R.check(seen == set(want), 'both-blocks' + tag, 'mul_Hs writes blocks %s' % sorted(seen), f.loc())
+        R.check(tail == ['axpby(arg2, dot(p, arg3), p, one())', 'scale(arg2, μ)'], 'rank-one-p-then-mu' + tag,
+                'mul_Hs finishes with %s, expected y += <p, x> p and then y *= mu' % tail, f.loc())
+        g = F.one(name='get_Hs', adt='GenPowerCone', trait='Cone')
+        calls = [canon(('call', c.callee.target_key or c.callee.name, tuple(g.sym_operand(a) for a in c.args), c.bb)).replace('self.data.0.pointer.', '') for c in g.calls if c.callee.name in ('scalarop_from', 'set', 'fill')]
+        R.check(len(calls) == 2 and calls[0].startswith('scalarop_from(index_mut(arg2, RangeTo::RangeTo(dim1(self))), closure(') and calls[0].endswith(', d1)')
+                and calls[1] in ('set(index_mut(arg2, RangeFrom::RangeFrom(dim1(self))), mul(μ, d2))', 'fill(index_mut(arg2, RangeFrom::RangeFrom(dim1(self))), mul(μ, d2))',
+                                 'set(index_mut(arg2, RangeFrom::RangeFrom(dim1(self))), mul(d2, μ))', 'fill(index_mut(arg2, RangeFrom::RangeFrom(dim1(self))), mul(d2, μ))'), 'diagonal-block' + tag, 'get_Hs performs %s, expected mu*d1 on the first block and mu*d2 on the second' % calls, g.loc())
+        cl = F.closures_of.get(g.key, [])
+        R.check(len(cl) == 1 and re.sub(r'arg1\.(_ref__)?data(__|\.0\.pointer\.|\.)', '', canon(cl[0].sym_local(0))) in ('mul(μ, arg2)', 'mul(arg2, μ)'), 'diagonal-block|d1' + tag,
+                'get_Hs maps d1 to %s' % [canon(c.sym_local(0)) for c in cl], g.loc())
+
+    R.guard(body)
+
+
 def hs_block_complete(rep, F, tag, rid='C11.R8'):
     """Every cone's get_Hs must fill its whole block of the KKT matrix: the entries it leaves alone keep the values of the
     previous iteration (or the structural initial value), so the assembled matrix is not the intended one."""
@@ -592,6 +708,7 @@ def run(ctx, rep, tier):
         same_filter(rep, F, tag)
         one_scaling_state(rep, F, E, tag)
         hs_block_complete(rep, F, tag)
+        genpow_operator(rep, F, tag, 'C11.R9')
         from . import c05
         # R5 (shared): identity scaling rewrites everything the KKT update reads
     from . import c08
